@@ -24,6 +24,21 @@
     M s r text           s := SignMessage(r, text)                                     -> ok | bad:…
     X text s             CPubKey.recover_compact(digest(text), s)                      -> pub | False
     Y a text s           VerifyMessage(a, text, s) under the current chain             -> 1 | 0 | err:…
+    Q s r digest         s := r.sign_compact(digest)  (r a key register)                 -> ok | bad:…
+
+  one low-level CECKey object `r` driven directly (its state is what the steps on `r` put there):
+    CK r                 CECKey()                                                       -> ok
+    CS r secret          r.set_secretbytes(secret)     (ValueError leaves r untouched)  -> ok | err:valueerr
+    CC r 0|1             r.set_compressed(flag)                                         -> ok
+    CP r hex             r.set_pubkey(bytes)           (after a failure the public part of r is whatever
+                         OpenSSL left: the reference marks it undefined until the next successful set) -> 1 | 0
+    CG r                 r.get_pubkey()                                                 -> pub
+    CV r digest s        r.verify(digest, s)                                            -> 1 | 0
+    CN s r digest        s := r.sign(digest)                                            -> ok | bad:…
+    CQ s r digest        s := r.sign_compact(digest): the recid search compares with r's CURRENT public key
+                                                                                        -> ok | bad:… | err:valueerr
+    CR r digest s        r.recover(s[1:33], s[33:65], digest, 32, (s[0]-27)&3, 0): return code; on 1 the
+                         public part of r becomes the recovered point                    -> 1 | 0 | -1
 -/
 import Driver.Util
 import BtcVerif.Model.Keys
@@ -44,12 +59,25 @@ def parseText? (s : String) : Option String :=
 
 def parseBytes? (s : String) : Option Bytes := if s == "-" then some [] else parseHex? s
 
+/-- public part of a CECKey object as far as the steps determine it -/
+inductive EcPub
+  | unset                       -- EC_KEY_new_by_curve_name: no public key
+  | pt (P : Secp256k1.Point)    -- set by set_secretbytes / set_pubkey / recover
+  | undefined                   -- after a failed set_pubkey (OpenSSL-internal leftover; not compared)
+
+structure EcKey where
+  secret : Option Bytes := none
+  pub : EcPub := .unset
+  form : Nat := 4                     -- conversion form: 2 compressed, 4 uncompressed (OpenSSL's default), 6 hybrid;
+                                      -- `o2i_ECPublicKey` also sets it, from the first octet of what it parsed
+
 structure St where
   chain : Spec.ChainParams := Spec.mainnet
   pubs : List (String × Bytes) := []
   keys : List (String × (Bytes × Bool × Nat)) := []       -- secret, compressed, version byte at creation
   sigs : List (String × Bytes) := []
   addrs : List (String × (Nat × Bytes × List Char)) := []     -- version, payload, text
+  ecs : List (String × EcKey) := []
   aux : List Bytes := []
   out : List String := []
 
@@ -92,8 +120,102 @@ def msgVerdict (k : Bytes × Bool × Nat) (msg sig : Bytes) : String :=
     | none => "bad:header-range"
   | [] => "bad:length"
 
+def St.setEc (st : St) (r : String) (k : EcKey) : St := { st with ecs := (r, k) :: st.ecs }
+
+def compactVerdict (pubC : Bytes) (digest sig64 : Bytes) (recid : Nat) : String :=
+  let r := beNat (sig64.take 32)
+  let s := beNat (sig64.drop 32)
+  match Model.Keys.signCompactFinish digest (Secp256k1.derEncode r s) pubC with
+  | .ok (sg, i) => if sg == sig64 && i == recid && Secp256k1.isLowS s then "ok" else "bad:recid-or-layout"
+  | .error e => "err:" ++ e.family
+
 def step (st : St) (toks : List String) : Option St :=
   match toks with
+  | ["Q", s, r, digest] => do
+      let k ← st.keys.lookup r
+      let digest ← parseHex? digest
+      match st.aux with
+      | sg :: rest =>
+          -- aux = r‖s (64 bytes) followed by the recid byte
+          let sig64 := sg.take 64
+          let recid := (sg.drop 64).headD 0 |>.toNat
+          let hdr := UInt8.ofNat (Model.Keys.headerByte recid k.2.1)
+          pure ({ st with aux := rest, sigs := (s, hdr :: sig64) :: st.sigs }.emit
+            (compactVerdict (Model.Keys.pubOfSecret k.1 true) digest sig64 recid))
+      | [] => pure (st.emit "noaux")
+  | ["CK", r] => pure ((st.setEc r {}).emit "ok")
+  | ["CS", r, secret] => do
+      let k ← st.ecs.lookup r
+      let secret ← parseBytes? secret
+      if secret.length ≠ 32 then pure (st.emit "err:valueerr")
+      else pure ((st.setEc r { k with secret := some secret, pub := .pt (Secp256k1.mulG (beNat secret)) }).emit "ok")
+  | ["CC", r, c] => do
+      let k ← st.ecs.lookup r
+      pure ((st.setEc r { k with form := if c == "1" then 2 else 4 }).emit "ok")
+  | ["CP", r, hex] => do
+      let k ← st.ecs.lookup r
+      let pk ← parseBytes? hex
+      if pk == [0] then pure ((st.setEc r { k with pub := .pt .inf, form := 0 }).emit "1")
+      else match Secp256k1.decode pk with
+        | some P => pure ((st.setEc r { k with pub := .pt P, form := (pk.headD 0).toNat / 2 * 2 }).emit "1")
+        | none => pure ((st.setEc r { k with pub := .undefined }).emit "0")
+  | ["CG", r] => do
+      let k ← st.ecs.lookup r
+      match k.pub with
+      | .pt (.aff x y) =>
+          -- after `set_pubkey(00)` the conversion form is 0 (first octet & ~1): i2o_ECPublicKey then yields
+          -- nothing and `create_string_buffer(0)`… raises TypeError, until set_compressed gives a form again
+          if k.form == 0 then pure (st.emit "err:py:TypeError") else
+          let enc := if k.form == 2 then Secp256k1.encode (.aff x y) true
+            else if k.form == 6 then (UInt8.ofNat (6 + y % 2)) :: (Secp256k1.encode (.aff x y) false).drop 1
+            else Secp256k1.encode (.aff x y) false
+          pure (st.emit (toHex enc))
+      | _ => pure (st.emit "undef")
+  | ["CV", r, digest, s] => do
+      let k ← st.ecs.lookup r
+      let digest ← parseHex? digest
+      let sig ← st.sigOf s
+      match k.pub, Secp256k1.derDecodeStrict sig with
+      | .undefined, _ => pure (st.emit "undef")
+      | _, none => pure (st.emit "notder")
+      | .pt Q, some (rr, ss) => pure (st.emit (bit (Secp256k1.verify Q (Secp256k1.digestNat digest) rr ss)))
+      | .unset, _ => pure (st.emit "0")
+  | ["CN", s, r, digest] => do
+      let k ← st.ecs.lookup r
+      let digest ← parseHex? digest
+      match k.secret, st.aux with
+      | some sec, sig :: rest =>
+          pure ({ st with aux := rest, sigs := (s, sig) :: st.sigs }.emit (signVerdict sec digest sig))
+      | _, _ => pure (st.emit "noaux")
+  | ["CQ", s, r, digest] => do
+      let k ← st.ecs.lookup r
+      let digest ← parseHex? digest
+      match k.secret, k.pub with
+      | some sec, .pt P =>
+        if k.form == 0 then pure (st.emit "err:py:TypeError") else      -- sign_compact calls get_pubkey
+        let pubC := Secp256k1.encode P true
+        -- the signature is made with r's secret; the recid search compares with r's CURRENT public key: when
+        -- that is not secret·G no recovery id can reproduce it and the library ends in ValueError
+        if Model.Keys.pubOfSecret sec true != pubC then pure (st.emit "err:valueerr")
+        else (match st.aux with
+         | sg :: rest =>
+             let sig64 := sg.take 64
+             let recid := (sg.drop 64).headD 0 |>.toNat
+             pure ({ st with aux := rest, sigs := (s, UInt8.ofNat (27 + recid) :: sig64) :: st.sigs }.emit
+               (compactVerdict pubC digest sig64 recid))
+         | [] => pure (st.emit "noaux"))
+      | _, _ => pure (st.emit "undef")
+  | ["CR", r, digest, s] => do
+      let k ← st.ecs.lookup r
+      let digest ← parseHex? digest
+      let sig ← st.sigOf s
+      match sig with
+      | h :: body =>
+        let recid := (Model.Keys.headerDecode h.toNat).1
+        (match Model.Keys.recover (body.take 32) ((body.drop 32).take 32) digest recid false with
+         | (1, some Q) => pure ((st.setEc r { k with pub := .pt Q }).emit "1")
+         | (c, _) => pure (st.emit (toString c)))
+      | [] => none
   | ["S", chain] => do
       let ch ← Spec.chainByName? chain
       pure ({ st with chain := ch }.emit "ok")
@@ -163,6 +285,7 @@ def step (st : St) (toks : List String) : Option St :=
         Model.Keys.recoverCompact d sig
       pure (st.emit (Res.render (r.map fun o => match o with | some b => toHex b | none => "False")))
   | ["Y", a, text, s] => do
+      let a := if a.endsWith "~" || a.endsWith "^" then (a.dropEnd 1).toString else a
       let ad ← st.addrs.lookup a
       let text ← parseText? text
       let sig ← st.sigOf s
